@@ -155,7 +155,7 @@ def run(ctx):
             if inc is not None:
                 if inc[0] == "const" and inc[2] == 1:
                     kind = "length-octet"
-                elif inc[0] == "cast" and bool(Call("Label::len")(inc[1])):
+                elif (inc[0] == "cast" and bool(Call("Label::len")(inc[1]))) or bool(Call("Label::len")(inc)):   # `as usize` or usize::from(..)
                     kind = "label"
                 elif A.last_field(inc) == "len" and any(x[0] == "call" and x[1] == WIRE_DN for x in A.walk(inc)):
                     kind = "pointed-name"
